@@ -24,7 +24,7 @@ func (C09) Plan(tier string) core.Plan {
 
 func (C09) Info() core.Info {
 	return core.Info{
-		Rule:        "histories of 2-6 operations mixing Redefine (random input/output filters, random subsets of the options) and Call on the same *Func objects and the same option values: targets and converters in every form incl. run-once, built and generator-offered converters. Each history is executed, then its twin (the Redefine operations deleted) on fresh parties; both reseed the schedule PRNG per operation with the operation's stable id, so a Call sees the same stream of iteration orders in both. Oracle: no party executes while a Redefine is being computed (generators and filters may run); every Call has the same outcome kind and the same id-independent provenance of the values the target received as in the twin; per-party execution counts agree. Non-trivial: a Redefine precedes a Call and >=1 converter exists; distinct = distinct (world shape, event-log hash)",
+		Rule:        "histories of 2-6 operations mixing Redefine (random input/output filters, random subsets of the options) and Call on the same *Func objects and the same option values: targets and converters in every form incl. run-once, built and generator-offered converters. Each history is executed, then its twin (the Redefine operations deleted) on fresh parties; both reseed the schedule PRNG per operation with the operation's stable id, so a Call sees the same stream of iteration orders in both. Oracle: no party executes while a Redefine is being computed (generators and filters may run); every Call has the same outcome kind and the same id-independent provenance of the values the target received as in the twin; per-party execution counts agree; the values visible in every function's Input()/Output() sets are the same before and after a Redefine. Non-trivial: a Redefine precedes a Call and >=1 converter exists; distinct = distinct (world shape, event-log hash)",
 		Assumptions: []string{"calls of the redefined functions themselves are excluded here (they are real uses of the target; C08 covers them)"},
 		Probes:      []string{"c09_redefine_ops", "c09_redefine_ok", "c09_calls_compared", "c09_once_worlds", "c09_built_worlds", "c09_call_after_redefine_used_converter", "s1_nonidentity_perms"},
 		Real:        realComponents,
@@ -172,11 +172,24 @@ func (C09) Run(c core.Case, ctx *core.Ctx) []core.Violation {
 		out = append(out, core.Violation{Class: class, Site: site, Detail: detail})
 	}
 	for k := 0; k < ctx.NumSchedules(); k++ {
-		rt, sim := execWorld(&w, ctx, k)
+		sim := ctx.Begin(k)
+		rt := world.Instantiate(&w, sim, ctx.St)
 		if rt.InstErr != nil {
 			ctx.St.Inc("inst_rejected")
 			finish(ctx, rt, sim)
 			return nil
+		}
+		for i := range w.Ops {
+			before := ""
+			if w.Ops[i].Kind == world.OpRedefine {
+				before = rt.SetSnapshot()
+			}
+			rt.RunOp(i)
+			if w.Ops[i].Kind == world.OpRedefine {
+				if after := rt.SetSnapshot(); after != before {
+					add("redefine-changed-a-value-set", "Redefine", fmt.Sprintf("schedule %d op %d: the Input()/Output() value sets of the functions held %q before Redefine and %q after", k, i, trunc(before), trunc(after)))
+				}
+			}
 		}
 		// twin history under the same simulation (fresh parties, reseeded per operation)
 		rt2 := world.Instantiate(&twin, sim, ctx.St)
